@@ -152,6 +152,26 @@ type node struct {
 	depth  int
 	taint  string // attribution: a merge on the path deviated from the pointwise-max join in this way
 	idx    int
+	cs     []string // cache: canonical rendering per replica ("" = not computed yet)
+}
+
+// canonOf is canon(n.reps[i]), computed once per node (children inherit it for unchanged replicas).
+func (n *node) canonOf(i int) string {
+	if n.cs == nil {
+		n.cs = make([]string, len(n.reps))
+	}
+	if n.cs[i] == "" {
+		n.cs[i] = canon(n.reps[i])
+	}
+	return n.cs[i]
+}
+
+// child copies n with replica r about to change.
+func (n *node) inheritCanon(c *node, r int) {
+	if n.cs != nil {
+		c.cs = append([]string{}, n.cs...)
+		c.cs[r] = ""
+	}
 }
 
 func (n *node) path() []trans {
@@ -284,8 +304,8 @@ func (n *node) implKey(typ string) string {
 		return lwwCanonRanked(n.reps)
 	}
 	var b strings.Builder
-	for _, r := range n.reps {
-		b.WriteString(canon(r))
+	for i := range n.reps {
+		b.WriteString(n.canonOf(i))
 		b.WriteString(";")
 	}
 	return b.String()
@@ -347,6 +367,27 @@ func (n *node) key(typ string) string {
 
 // ---------------------------------------------------------------------------------------------
 // gob transport: the value travels inside the RPC argument struct of the CRDT resource
+
+type gobResult struct {
+	v   resources.CRDTValue
+	err error
+}
+
+// gobOf is the gob round trip of n.reps[i]; the round trip is a function of the value, so it is
+// performed once per distinct value (keyed by the canonical rendering of the complete internal state).
+func (s *searcher) gobOf(n *node, i int) (resources.CRDTValue, error) {
+	k := n.canonOf(i)
+	if r, ok := s.gobCache.Load(k); ok {
+		gr := r.(gobResult)
+		return gr.v, gr.err
+	}
+	v, err := gobRT(n.reps[i])
+	s.stats.Lock()
+	s.stats.gobRoundTrips++
+	s.stats.Unlock()
+	s.gobCache.Store(k, gobResult{v, err})
+	return v, err
+}
 
 func gobRT(v resources.CRDTValue) (resources.CRDTValue, error) {
 	var buf bytes.Buffer
@@ -651,14 +692,15 @@ func (c *collector) finalize() (out []reported, unobservable map[string]int) {
 // the search
 
 type searcher struct {
-	cfg     config
-	u       universe
-	ops     []opDesc
-	col     *collector
-	lawSeen map[string]bool // implKey -> true: the laws depend on the replica values only
-	stats   struct {
+	cfg      config
+	u        universe
+	ops      []opDesc
+	col      *collector
+	lawSeen  map[string]bool // implKey -> true: the laws depend on the replica values only
+	gobCache sync.Map        // canonical rendering -> gobResult
+	stats    struct {
 		sync.Mutex
-		lawChecks, readChecks, gobChecks, inflationChecks, merges, lawTuples int64
+		lawChecks, readChecks, gobChecks, inflationChecks, merges, lawTuples, gobRoundTrips int64
 	}
 }
 
@@ -738,6 +780,7 @@ func (s *searcher) write(n *node, r, op int) *node {
 	c := &node{reps: append([]resources.CRDTValue{}, n.reps...), know: append([]uint64{}, n.know...),
 		parent: n, tr: trans{T: "w", R: r, Op: op}, depth: n.depth + 1, taint: n.taint}
 	c.reps[r] = n.reps[r].Write(s.u.ids[r], s.u.opValue(s.ops[op]))
+	n.inheritCanon(c, r)
 	seq := 0
 	for _, e := range n.ev {
 		if e.origin == r {
@@ -756,11 +799,12 @@ func (s *searcher) mergeTr(n *node, r, from int, viaGob bool) (*node, error) {
 	if viaGob {
 		c.tr.T = "mg"
 		var err error
-		if arg, err = gobRT(arg); err != nil {
+		if arg, err = s.gobOf(n, from); err != nil {
 			return nil, err
 		}
 	}
 	c.reps[r] = n.reps[r].Merge(arg)
+	n.inheritCanon(c, r)
 	if d := deviation(s.cfg.Type, n.reps[r], arg, c.reps[r]); d != "" && c.taint == "" {
 		c.taint = d
 	}
@@ -769,7 +813,7 @@ func (s *searcher) mergeTr(n *node, r, from int, viaGob bool) (*node, error) {
 }
 
 // checkNode runs every per-state check on node n.
-func (s *searcher) checkNode(n *node, laws bool) {
+func (s *searcher) checkNode(n *node, laws bool, ws []*node) {
 	c := &chk{s: s, n: n}
 	typ := s.cfg.Type
 	R := len(n.reps)
@@ -807,7 +851,7 @@ func (s *searcher) checkNode(n *node, laws bool) {
 	// gob round trip of every replica state
 	gobv := make([]resources.CRDTValue, R)
 	for i := 0; i < R; i++ {
-		g, err := gobRT(n.reps[i])
+		g, err := s.gobOf(n, i)
 		gobN++
 		if err != nil {
 			s.col.add(typ+"/gob-error", &candidate{s: s, n: n, law: "gob", observable: true,
@@ -892,7 +936,12 @@ func (s *searcher) checkNode(n *node, laws bool) {
 	for i := 0; i < R; i++ {
 		for op := range s.ops {
 			i, op := i, op
-			nw := s.write(n, i, op).reps[i]
+			var nw resources.CRDTValue
+			if ws != nil {
+				nw = ws[i*len(s.ops)+op].reps[i] // the write successor already computed for the search
+			} else {
+				nw = s.write(n, i, op).reps[i]
+			}
 			c.begin()
 			a := c.merge(n.reps[i], nw)
 			inflN++
@@ -1048,11 +1097,12 @@ func (s *searcher) run(workers int, deadline time.Time) *searchResult {
 				return
 			}
 			n := frontier[i]
-			s.checkNode(n, laws[i])
 			if last {
+				s.checkNode(n, laws[i], nil)
 				return
 			}
-			sc := s.successors(n)
+			sc := s.successors(n) // the first R*len(ops) entries are the write successors, in (replica, op) order
+			s.checkNode(n, laws[i], sc[:len(n.reps)*len(s.ops)])
 			ks := make([]string, len(sc))
 			for j, c := range sc {
 				ks[j] = c.key(s.cfg.Type)
@@ -1142,6 +1192,7 @@ func (s *searcher) run(workers int, deadline time.Time) *searchResult {
 	res.Checks["gob"] = int(s.stats.gobChecks)
 	res.Checks["inflation"] = int(s.stats.inflationChecks)
 	res.Checks["merge_calls"] = int(s.stats.merges)
+	res.Checks["gob_round_trips_performed_distinct_values"] = int(s.stats.gobRoundTrips)
 	s.stats.Unlock()
 	res.WallS = time.Since(t0).Seconds()
 	return res
@@ -1152,7 +1203,11 @@ func plan(thorough bool) []config {
 	types := []string{"gcounter", "aworset", "lww"}
 	if !thorough {
 		for _, t := range types {
-			out = append(out, config{Type: t, Universe: 0, Replicas: 3, Depth: 5})
+			d3 := 5
+			if t == "lww" {
+				d3 = 4 // the time order of updates multiplies the LWW state space; depth 5 and beyond run in the thorough tier
+			}
+			out = append(out, config{Type: t, Universe: 0, Replicas: 3, Depth: d3})
 			out = append(out, config{Type: t, Universe: 1, Replicas: 2, Depth: 5})
 		}
 		return out
@@ -1187,7 +1242,7 @@ func TestCheck(t *testing.T) {
 					col.add(s.cfg.Type+"/gob-error", &candidate{s: s, n: s.root(), law: "gob", observable: true, what: err.Error()})
 					break
 				}
-				s.checkNode(n, true)
+				s.checkNode(n, true, nil)
 			}
 			res.Coverage = map[string]any{"states": len(r.Path) + 1, "transitions": len(r.Path), "traces_validated_against_impl": 1,
 				"samples": []any{r.PathS}, "replay": true}
